@@ -5,6 +5,9 @@ EnabledB == { <<"c">>, <<"c","a">>, <<"c","ll">>, <<"c","p">>, <<"c","p","x">>, 
 \* slice O: the ordered list with a nested container in its entries
 EnabledO == { <<"ol">>, <<"ol","k">>, <<"ol","sub">>, <<"ol","sub","w">> }
 EnabledM == { <<"c">>, <<"c","a">>, <<"m">>, <<"m","k1">>, <<"m","k2">>, <<"m","v">> }
+\* slices with derived state: plain shape (config false container st) and OpenConfig shape (state-only leaf c/s)
+EnabledST == { <<"c">>, <<"c","a">>, <<"c","ll">>, <<"l">>, <<"l","k">>, <<"l","v">>, <<"st">>, <<"st","s">> }
+EnabledSOC == { <<"c">>, <<"c","a">>, <<"c","s">>, <<"c","ll">>, <<"l">>, <<"l","k">>, <<"l","v">>, <<"l","sub">>, <<"l","sub","w">> }
 \* small slices for pair models
 EnabledP == { <<"c">>, <<"c","a">>, <<"l">>, <<"l","k">>, <<"l","v">> }
 EnabledQ == { <<"c">>, <<"c","ll">>, <<"ol">>, <<"ol","k">>, <<"ol","v">> }
